@@ -167,7 +167,7 @@ impl FixedMethod {
             // Emoji addition with Emoticons.
             if let Some(emoji) = data.get_emoji_by_emoticon(&self.typed) {
                 self.suggestions.push(Rank::emoji(emoji.to_owned()));
-            } else if let Some(emojis) = data.get_emoji_by_bengali(word) {
+            } else if let Some(emojis) = data.get_emoji_by_bengali(&word.replace(ZWNJ, "")) {
                 // Emoji addition with it's Bengali name.
                 // Add preceding and trailing meta characters.
                 let emojis = emojis.zip(1..).map(|(s, r)| {
